@@ -123,8 +123,8 @@ def run(ctx: Ctx):
         ctx.ob("C20-O1", "R27 WRITE-OWNERSHIP", f, f"{q.split('.')[1]} groups every element by its root", "for i in range(len(self._parent))" in t and "root = self.find(i)" in t, "", node=f.node)
     from .sat_common import _need
 
-    _need(ctx, "C20-O1", "R30 ACCUMULATOR-PAIRING", ctx.func(MOD, "UnionFind.component_sizes"), "component_sizes counts every element once, under its root, and returns the counts", ["size_map[root] = size_map.get(root, 0) + 1", "return list(size_map.values())"])
-    _need(ctx, "C20-O1", "R30 ACCUMULATOR-PAIRING", ctx.func(MOD, "UnionFind.get_components"), "get_components puts every element into the set of its root (created on first sight) and returns the sets", ["if root not in comp_map:\n            comp_map[root] = set()\n        comp_map[root].add(i)", "return list(comp_map.values())"])
+    ctx.step(_need, "C20-O1", "R30 ACCUMULATOR-PAIRING", ctx.func(MOD, "UnionFind.component_sizes"), "component_sizes counts every element once, under its root, and returns the counts", ["size_map[root] = size_map.get(root, 0) + 1", "return list(size_map.values())"])
+    ctx.step(_need, "C20-O1", "R30 ACCUMULATOR-PAIRING", ctx.func(MOD, "UnionFind.get_components"), "get_components puts every element into the set of its root (created on first sight) and returns the sets", ["if root not in comp_map:\n            comp_map[root] = set()\n        comp_map[root].add(i)", "return list(comp_map.values())"])
     ficfg = cfg_of(fi.node)
     figv = GuardView(ficfg)
     for d in tree_defs:
